@@ -24,18 +24,31 @@ def world_leg(run, PROP, rng, tier, drv, har, n, monitors, gen_kw=None, clean_or
             index.append((hi, ii))
     sched_reps = S.replay_invocations(drv, [(inv, m["j"], m["k"], m.get("adopt", False), m["targets"]) for inv, m in items])
     world_reps = replay_world(drv, [(inv, m.get("adopt", False)) for inv, m in items])
+    # invocations that ran with `-d explain`: the messages logged, verdict by verdict, against Model/Explain.v
+    flags = {}
+    for hi, (steps, _, _) in enumerate(hist):
+        for ii, l in enumerate([l for l in steps if l.startswith("inv ")]):
+            flags[(hi, ii)] = S.inv_explains(l)
+    ex_idx = [k for k, ix in enumerate(index) if flags.get(ix)]
+    ex_reps = dict(zip(ex_idx, explain_world(drv, [(items[k][0], items[k][1].get("adopt", False)) for k in ex_idx])))
     stats = {"histories": len(hist), "invocations": len(items), "sched_accepted": 0, "world_consistent": 0, "commands": 0,
-             "verdicts": 0, "records": 0, "results": {}}
+             "verdicts": 0, "records": 0, "results": {}, "explain_invocations": len(ex_idx), "explain_consistent": 0,
+             "explain_messages": 0}
     nontrivial = set()
     samples = []
     clean_jobs = []
-    for (hi, ii), (inv, meta), srep, wrep in zip(index, items, sched_reps, world_reps):
+    for pos, ((hi, ii), (inv, meta), srep, wrep) in enumerate(zip(index, items, sched_reps, world_reps)):
         scen = "\n".join(hist[hi][0])
         where = {"scenario": scen, "invs": [{k: v for k, v in m.items() if k != "files"} for m in hist[hi][1]], "invocation": ii, "result": inv.result}
         if S.check_acceptance(run, PROP, scen, ii, inv, None, srep):
             stats["sched_accepted"] += 1
-        if check_world(run, where, inv, wrep):
+        wok = check_world(run, where, inv, wrep)
+        if wok:
             stats["world_consistent"] += 1
+        if wok and pos in ex_reps and not inv.result.startswith("panic"):
+            if check_explain(run, where, inv, ex_reps[pos]):
+                stats["explain_consistent"] += 1
+                stats["explain_messages"] += sum(len(m) for _, m in inv.explained)
         kind = inv.result.split(":")[0]
         stats["results"][kind] = stats["results"].get(kind, 0) + 1
         stats["commands"] += len(inv.started)
